@@ -319,6 +319,43 @@ func c11Run(c c11Case) (msg string) {
 
 	hasVec := func(i int) bool { return c.Vec[i] != 0 }
 
+	// ---- the tail: persistence steps the answers must not depend on
+	if c.Tail != "" {
+		var terr error
+		if strings.HasPrefix(c.Tail, "rewrite") {
+			if m := c11Guard("RewriteAOF", func() { terr = e.RewriteAOF() }); m != "" {
+				return m
+			}
+			if terr != nil {
+				return "HARNESS: RewriteAOF: " + terr.Error()
+			}
+		}
+		if strings.HasPrefix(c.Tail, "snapshot") {
+			if m := c11Guard("SaveSnapshot", func() { terr = e.SaveSnapshot() }); m != "" {
+				return m
+			}
+			if terr != nil {
+				return "HARNESS: SaveSnapshot: " + terr.Error()
+			}
+		}
+		if strings.HasSuffix(c.Tail, "restart") {
+			if m := c11Guard("engine.Close", func() { terr = e.Close() }); m != "" {
+				return m
+			}
+			if terr != nil {
+				return "HARNESS: Close: " + terr.Error()
+			}
+			if m := c11Guard("engine.Open", func() { e, terr = engine.Open(engineOpts(filepath.Join(dir, "data"))) }); m != "" {
+				closed = true
+				return m
+			}
+			if terr != nil {
+				closed = true
+				return "HARNESS: engine.Open after the tail: " + terr.Error()
+			}
+		}
+	}
+
 	for qi, q := range c.Queries {
 		c11QueriesRun.Add(1)
 		var m string
